@@ -9,6 +9,9 @@ claimed = {
  "C01": ("end-of-stream abstraction on SSA: per-loop progress (consume events, least-fixpoint consume summaries), per-loop sparse conditional constant propagation with stream reads folded to their exhausted value (callee predicate evaluation, known-key-set map lookups, must-fail-at-end summaries, flow-sensitive local cells), left-recursion check on the resolved call graph (Pratt tables, custom parsers), must-store dataflow for token typing, error-origin and use-before-error-check rules",
          "Termination argument for every byte string: every loop/recursion of lexer and parser consumes input until the stream is exhausted, and at the exhausted steady state no loop has a feasible cycle; every token leaving NextToken is typed and located; every parser error is a *ParseError. Decides totality structurally for all inputs; does not decide that line/column numbers are the right values.",
          "trusts go/ssa; assumptions: no custom parser for EOF, an exhausted bufio.Reader keeps failing; one reviewed loop (peekUntil) and one named source-advance exception (readNumber)", "DESIGN.md §3 E3/E4, §4 C01"),
+ "C02": ("compiled-in table extraction by constant evaluation on SSA (precedence map, Pratt registration tables, keyword map, lexer case chains, statement/declaration dispatch) compared with spec tables transcribed from the property statement and docs/parser.md; dominance rules for the Pratt comparison and binding-power arguments; writer-side field census",
+         "Structural necessary conditions: operators have the stated binding-power classes in the stated order; the Pratt loop is strict (left associative) and every ParseExpression call site passes the right power; every token is registered with/dispatched to the parser the grammar names; operator and keyword spellings lex to their own token; escape decoding only in double-quoted strings; every node field is stored. A one-entry edit of any table is caught for all programs at once. Does not decide literal values or source order.",
+         "trusts go/ssa; spec tables in c02.go are transcriptions of the property statement, docs/parser.md and the Fastly operator reference cited by token/token.go", "DESIGN.md §4 C02"),
  "C03": ("AST field-coverage census (struct fields by *types.Var on SSA), type-switch exhaustiveness against parser-constructible node kinds, computed lossy-renderer set (who-may-print), optional-field nil discipline (parser must-assign dataflow + dominance), must-use of dequeued chunks",
          "Structural necessary conditions: every node kind the parser builds is dispatched; every semantic field is read by a printer; nothing is printed through a lossy ast String(); literals come from the source token; grammar-optional fields are nil-tested before dereference; dequeued chunks are emitted. Holds for all programs and options at once; does not decide the text produced.",
          "trusts go/ssa; exemption tables (option-normalised/derived fields, declaration-property kinds, listed lossy renderer) in c03.go with one reason each", "DESIGN.md §4 C03"),
